@@ -15,17 +15,20 @@ STRUCT = {'par', 'libs', 'defs', 'ports', 'cables', 'children', 'pins', 'wires',
 NAMING = {'par', 'libs', 'defs', 'ports', 'cables', 'children', 'data', 'ns'}
 ALL = None
 
+# the read-only queries of the anchored classes answer from the state the dump shows (ir_oracles.observers)
+OBS = ('Observers', ir_oracles.observers)
+
 CONFIG = {
     'C01': dict(profile=['structure', 'mirror'], keys=STRUCT, events=False,
-                oracles=[('Inv1', ir_oracles.inv1)], quick=(700, 45), thorough=(6000, 60)),
+                oracles=[('Inv1', ir_oracles.inv1), OBS], quick=(700, 45), thorough=(6000, 60)),
     'C02': dict(profile=['mirror', 'structure'], keys=STRUCT, events=False,
-                oracles=[('Inv2', ir_oracles.inv2)], quick=(700, 45), thorough=(6000, 60)),
+                oracles=[('Inv2', ir_oracles.inv2), OBS], quick=(700, 45), thorough=(6000, 60)),
     'C10': dict(profile=['naming'], keys=NAMING, events=False,
-                oracles=[('NsInv', ir_oracles.ns_inv)], quick=(500, 45), thorough=(5000, 60)),
+                oracles=[('NsInv', ir_oracles.ns_inv), OBS], quick=(500, 45), thorough=(5000, 60)),
     'C14': dict(profile=['structure', 'naming', 'mirror'], keys=ALL, events=False,
-                oracles=[], quick=(600, 45), thorough=(6000, 60)),
+                oracles=[OBS], quick=(600, 45), thorough=(6000, 60)),
     'C19': dict(profile=['structure', 'mirror', 'naming'], keys=ALL, events=True,
-                oracles=[], quick=(600, 45), thorough=(6000, 60)),
+                oracles=[OBS], quick=(600, 45), thorough=(6000, 60)),
 }
 
 
